@@ -96,7 +96,8 @@ func roAttrDocs(f func(cfgs []string, doc string)) {
 
 var roExtPieces = []string{
 	"\"q\" 'r' -- --- ... << >> it's 'tis \"a 'b' c\"\n", "a--b---c...d\n", "'\\''\n", "\"\n", "www.example.com/a_b(c) http://a.b/?q=1&r=2. https://x.y/z, mail@example.com.\n", "www.a.b/c&amp;d&lt; ftp://f.g/h\n",
-	"text[^1] and[^n] again[^1]\n\n[^1]: note *one*\n    more\n\n[^n]: n\n", "[^a]: x\n[^a]: dup\n\ny[^a][^a]\n", "| a | b |\n|---|:-:|\n| `x\\|y` | \\| |\n| c |\n", "|h|\n|-|\n|\\|\n",
+	"text[^1] and[^n] again[^1]\n\n[^1]: note *one*\n    more\n\n[^n]: n\n", "Some text[^Note] and[^MiXed-1].\n\n[^Note]: The note.\n[^MiXed-1]: x\n", "run `go build\r\n./...` first\r\n", "a `b\rc` d\r\n\r\n``x\r\n y``\r\n",
+	"[Foo Bar]: /U \"T\"\n\n[FOO\tbar] [foo  BAR]\n", "Term\n: Def *x*\n\nTERM2\n:   D2\n", "# Title ÄÖ {#MyId .Cls}\n", "<HTTP://EXAMPLE.COM/A> WWW.Example.COM x@Y.Z\n", "[^a]: x\n[^a]: dup\n\ny[^a][^a]\n", "| a | b |\n|---|:-:|\n| `x\\|y` | \\| |\n| c |\n", "|h|\n|-|\n|\\|\n",
 	"| a \\| b | c |\n|:--|--:|\n| *d* | e\\|f\\|g |\n", "term\n: def *a*\n: def2\n\nterm2\n\n: loose\n\n  para\n", "t1\nt2\n:   d\n", "- [ ] todo\n- [x] done\n", "~~del~~ ~one~ ~~a~b~~\n",
 	"[Foo Bar]: /u \"T\"\n\n[foo\nbar] [FOO BAR][] [x][Foo  Bar]\n", "[ÄÖ]: /u\n\n[äö] [ẞ]\n\n[ẞ]: /s\n", "[a]: </u v> 't\\'x'\n[a]\n", "[l](/u%20a\\) \"t&amp;\\\"\") ![i](<a b> 'c')\n",
 	"&amp; &#65; &#x41; &nosuch; &#0; &copy;x \\& \\* \\\\\n", "<a href=\"x\">raw</a> <!-- c --> <?p?> <b\nc>\n", "```go a&amp;b\ncode\n```\n", "~~~ \\*x\nc\n~~~", "    indented\n\tcode\n", "\tcode after tab\n",
